@@ -1080,3 +1080,241 @@ def raises_on(cfg: CFG, edges) -> bool:
     """Every continuation over these edges ends exceptionally (no normal exit)."""
     starts = [b for (_a, b, _l) in edges]
     return bool(starts) and cfg.exit not in flow.reachable(cfg, starts)
+
+
+# ---------------------------------------------------------------------------
+# result kinds of a plain header accessor (C06 R2(d), restricted)
+# ---------------------------------------------------------------------------
+#
+# A *plain header accessor* is a getter whose body is: table lookups of one
+# request-header table (`T[k]`, `T.get(k[, d])`, `k in T`), `.decode(..)` of the
+# looked-up value, constants, factory-bound constants, `or`/`and`/`not`/
+# `is None` / conditional expressions over those, plain local assignments,
+# `if` over such tests, `try/except KeyError` and `return`.  For such a getter
+# the result is a function of the *input class* of the header alone
+#   missing | blank (present, empty string) | non-blank
+# and is one of
+#   ('none',) | ('const', c) | ('value',) | ('raises', 'KeyError').
+# Anything else is `Unreadable` (an UnknownIdiom): never guessed.
+
+HEADER_INPUTS = ('missing', 'blank', 'non-blank')
+K_NONE = ('none',)
+K_VALUE = ('value',)
+_DERIVED = ('derived',)  # a factory local computed from the header name: usable as a table key only
+
+
+class Unreadable(UnknownIdiom):
+    """The getter is not a plain header accessor."""
+
+
+class _HeaderMissing(Exception):
+    pass
+
+
+def factory_bindings(p: Project, c: Class, call) -> Tuple[Func, Func, Dict[str, tuple]]:
+    """(factory, getter, name -> abstract value) for a class-level
+    `name = factory(<constant arguments>)` whose factory returns
+    `property(<nested getter>)`: parameters are bound to the call's constant
+    arguments (or their constant defaults); other factory locals are `derived`."""
+    if not isinstance(call, ast.Call):
+        raise Unreadable('factory property: not a call: %s' % short(call))
+    q = p.resolve_expr(c.module, call.func)
+    fac = p.funcs.get(q) if q else None
+    getter = factory_getter(p, c, call)
+    if fac is None or getter is None:
+        raise Unreadable('factory property: %s does not resolve to a property factory' % short(call.func))
+    a = fac.node.args
+    if a.vararg is not None or a.kwarg is not None or any(isinstance(x, ast.Starred) for x in call.args) or any(k.arg is None for k in call.keywords):
+        raise Unreadable('%s: star arguments' % fac.qual)
+    pos = [x.arg for x in list(a.posonlyargs) + list(a.args)]
+    given: Dict[str, Tuple[ast.AST, object]] = {}
+    if len(call.args) > len(pos):
+        raise Unreadable('%s: too many positional arguments in %s' % (fac.qual, short(call)))
+    for nm, e in zip(pos, call.args):
+        given[nm] = (e, 'call')
+    allnames = set(pos) | {x.arg for x in a.kwonlyargs}
+    for k in call.keywords:
+        if k.arg not in allnames or k.arg in given:
+            raise Unreadable('%s: keyword %s in %s' % (fac.qual, k.arg, short(call)))
+        given[k.arg] = (k.value, 'call')
+    for nm, d in zip(pos[len(pos) - len(a.defaults):], a.defaults):
+        given.setdefault(nm, (d, 'default'))
+    for x, d in zip(a.kwonlyargs, a.kw_defaults):
+        if d is not None:
+            given.setdefault(x.arg, (d, 'default'))
+    env: Dict[str, tuple] = {}
+    for nm in allnames:
+        if nm not in given:
+            raise Unreadable('%s: parameter %s is not bound by %s' % (fac.qual, nm, short(call)))
+        e, src = given[nm]
+        v = p.fold(c.module, e, c) if src == 'call' else p.fold(fac.module, e)
+        if v is UNKNOWN:
+            raise Unreadable('%s: argument %s=%s is not a constant' % (fac.qual, nm, short(e)))
+        env[nm] = K_NONE if v is None else ('const', v)
+    for n in walk_no_nested(fac.node):
+        if isinstance(n, ast.Name) and isinstance(n.ctx, (ast.Store, ast.Del)):
+            if n.id in env and env[n.id] is not _DERIVED:
+                raise Unreadable('%s rebinds its parameter %s' % (fac.qual, n.id))
+            env[n.id] = _DERIVED
+    return fac, getter, env
+
+
+class _GetterEval:
+    CATCH_ALL = {'KeyError', 'LookupError', 'Exception', 'BaseException'}
+
+    def __init__(self, getter: Func, env: Dict[str, tuple], inp: str):
+        self.f = getter
+        self.env = env
+        self.inp = inp
+        self.tables: Set[str] = set()
+
+    def bad(self, what, node=None):
+        raise Unreadable('%s: %s%s' % (self.f.qual, what, (' ' + short(node, 70)) if node is not None else ''))
+
+    def is_table(self, e) -> bool:
+        t = table_of(self.f, e)
+        if t is not None and t[0] in ('environ', 'asgi-headers'):
+            self.tables.add(t[0])
+            return True
+        return False
+
+    def key(self, e, loc):
+        if isinstance(e, ast.Constant) and isinstance(e.value, (str, bytes)):
+            return
+        if isinstance(e, ast.Name) and e.id not in loc and e.id in self.env and self.env[e.id] is not K_NONE:
+            return
+        self.bad('table key', e)
+
+    def truthy(self, v) -> bool:
+        if v == K_NONE:
+            return False
+        if v == K_VALUE:
+            return self.inp == 'non-blank'
+        return bool(v[1])
+
+    def ev(self, e, loc):
+        if isinstance(e, ast.Constant):
+            return K_NONE if e.value is None else ('const', e.value)
+        if isinstance(e, ast.Name):
+            if e.id in loc:
+                return loc[e.id]
+            v = self.env.get(e.id)
+            if v is None or v is _DERIVED:
+                self.bad('free name', e)
+            return v
+        if isinstance(e, ast.Subscript) and isinstance(e.ctx, ast.Load) and self.is_table(e.value):
+            self.key(e.slice, loc)
+            if self.inp == 'missing':
+                raise _HeaderMissing()
+            return K_VALUE
+        if isinstance(e, ast.Call) and isinstance(e.func, ast.Attribute) and not e.keywords:
+            fn = e.func
+            if fn.attr == 'get' and 1 <= len(e.args) <= 2 and self.is_table(fn.value):
+                self.key(e.args[0], loc)
+                if self.inp == 'missing':
+                    return self.ev(e.args[1], loc) if len(e.args) == 2 else K_NONE
+                return K_VALUE
+            if fn.attr == 'decode' and all(isinstance(x, ast.Constant) for x in e.args):
+                v = self.ev(fn.value, loc)
+                if v == K_VALUE:
+                    return v  # b''.decode(..) == '': blank stays blank
+            self.bad('call', e)
+        if isinstance(e, ast.BoolOp):
+            stop = isinstance(e.op, ast.Or)
+            for x in e.values[:-1]:
+                v = self.ev(x, loc)
+                if self.truthy(v) is stop:
+                    return v
+            return self.ev(e.values[-1], loc)
+        if isinstance(e, ast.IfExp):
+            return self.ev(e.body if self.truthy(self.ev(e.test, loc)) else e.orelse, loc)
+        if isinstance(e, ast.UnaryOp) and isinstance(e.op, ast.Not):
+            return ('const', not self.truthy(self.ev(e.operand, loc)))
+        if isinstance(e, ast.Compare) and len(e.ops) == 1:
+            op, l, r = e.ops[0], e.left, e.comparators[0]
+            if isinstance(op, (ast.Is, ast.IsNot)) and isinstance(r, ast.Constant) and r.value is None:
+                res = self.ev(l, loc) == K_NONE
+                return ('const', res if isinstance(op, ast.Is) else not res)
+            if isinstance(op, (ast.In, ast.NotIn)) and self.is_table(r):
+                self.key(l, loc)
+                res = self.inp != 'missing'
+                return ('const', res if isinstance(op, ast.In) else not res)
+        self.bad('expression', e)
+
+    def catches(self, h: ast.ExceptHandler) -> bool:
+        if h.type is None:
+            return True
+        ts = h.type.elts if isinstance(h.type, ast.Tuple) else [h.type]
+        if not all(isinstance(t, ast.Name) for t in ts):
+            self.bad('handler type', h.type)
+        return any(t.id in self.CATCH_ALL for t in ts)
+
+    def run(self, stmts, loc):
+        for s in stmts:
+            if isinstance(s, ast.Pass) or (isinstance(s, ast.Expr) and isinstance(s.value, ast.Constant)):
+                continue
+            if isinstance(s, ast.Return):
+                return ('return', self.ev(s.value, loc) if s.value is not None else K_NONE)
+            if isinstance(s, ast.Assign) and len(s.targets) == 1 and isinstance(s.targets[0], ast.Name):
+                loc[s.targets[0].id] = self.ev(s.value, loc)
+                continue
+            if isinstance(s, ast.AnnAssign) and isinstance(s.target, ast.Name):
+                if s.value is not None:
+                    loc[s.target.id] = self.ev(s.value, loc)
+                continue
+            if isinstance(s, ast.If):
+                r = self.run(s.body if self.truthy(self.ev(s.test, loc)) else s.orelse, loc)
+                if r is not None:
+                    return r
+                continue
+            if isinstance(s, ast.Try) and not s.finalbody:
+                try:
+                    r = self.run(s.body, loc)
+                except _HeaderMissing:
+                    hs = [h for h in s.handlers if self.catches(h)]
+                    if not hs:
+                        raise
+                    if hs[0].name:
+                        self.bad('handler binds the exception', hs[0])
+                    r = self.run(hs[0].body, loc)
+                else:
+                    if r is None:
+                        r = self.run(s.orelse, loc)
+                if r is not None:
+                    return r
+                continue
+            self.bad('statement %s' % type(s).__name__, s)
+        return None
+
+
+def header_getter_kinds(p: Project, getter: Func, env: Optional[Dict[str, tuple]] = None) -> Dict[str, tuple]:
+    """input class -> result kind of a plain header accessor; `Unreadable`
+    when the getter has any other shape."""
+    if getter.is_async or len(getter.params()) != 1:
+        raise Unreadable('%s: not a one-argument synchronous getter' % getter.qual)
+    out: Dict[str, tuple] = {}
+    tables: Set[str] = set()
+    for inp in HEADER_INPUTS:
+        ge = _GetterEval(getter, env or {}, inp)
+        try:
+            r = ge.run(getter.node.body, {})
+            v = r[1] if r is not None else K_NONE
+        except _HeaderMissing:
+            v = ('raises', 'KeyError')
+        if v == K_VALUE and inp == 'blank':
+            v = ('const', '')  # the blank header value is the empty string
+        out[inp] = v
+        tables |= ge.tables
+    if len(tables) != 1:
+        raise Unreadable('%s: reads %d request-header tables' % (getter.qual, len(tables)))
+    return out
+
+
+def kind_text(k: tuple) -> str:
+    if k == K_NONE:
+        return 'None'
+    if k == K_VALUE:
+        return 'the header value'
+    if k[0] == 'const':
+        return 'the constant %r' % (k[1],)
+    return 'raises %s' % k[1]
